@@ -16,8 +16,9 @@
    were never checked; attributes unknown to the target version's element type were skipped. *)
 From AV Require Import Base.Bytes Base.Outcome Hash.HashModel Spec.SpecReal Tree.Heap Tree.Ops Tree.Compat Tree.CompatSpec
   Tree.CompatProofs1 Tree.CompatProofs2 Tree.CompatProofs3 Tree.CompatProofs4 Tree.Serialize
-  Tree.CompatTyped Tree.CompatProofs5 Tree.CompatReal Tree.CompatBridge Tree.CompatProofs6 Tree.CompatProofs7 Tree.CompatProofs8.
-From AV Require Tree.Inv.
+  Tree.CompatTyped Tree.CompatProofs5 Tree.CompatReal Tree.CompatBridge Tree.CompatProofs6 Tree.CompatProofs7 Tree.CompatProofs8
+  Tree.CompatHist1 Tree.CompatHist4 Tree.CompatHist5 Tree.CompatHistReal.
+From AV Require Tree.Inv Tree.Script.
 From AV Require Xml.Serializer Xml.RoundTripCanonb.
 From AV Require Xml.Parser.
 Open Scope list_scope.
@@ -241,3 +242,48 @@ Proof. exact create_inner_typed. Qed.
 Theorem C17_exact_real_core : forall (w : world) (f v : N) (r : cres),
   Inv.Core w -> TypedT RT w -> f_check RT w f v = Val r -> (fst r = [] <-> ValidIn RT w f v).
 Proof. exact f_check_exact_real_core. Qed.
+
+(* ================= the invariant over ALL histories of the operation alphabet (no hypothesis about the world) =================
+   okpair T tp nm tc  : the type tp lists the name nm, for some version set, with a type whose DATATYPE is that of tc
+   TypedU T w         : every listed sub-element is an okpair with its lister
+   MaskOK T           : every version mask of the tables lies within u32 (replaces the `within u32` clause of TypedT)
+   attach_ok T w h c  : the SIDE CONDITION of move_element_here(_at) h c / create_copied_sub_element(_at) h c:
+                        the destination's type lists the element's name with the element's stored datatype.  Without it the
+                        element keeps its stored type although the destination lists another one (C07 known class
+                        copy-keeps-source-type; the same holds for move): the document does not load strictly in its own version
+   op_ok / ok_ops     : attach_ok for the four attaching operations of a history (at the state where they run), True for the rest *)
+
+(* [U] TypedU + Core exclude the K classes on tables with PairOK and MaskOK: exactness *)
+Theorem C17_exact_u : forall (T : tables) (w : world) (f v : N),
+  PairOK T -> MaskOK T -> Inv.Core w -> TypedU T w ->
+  forall r : cres, f_check T w f v = Val r -> (fst r = [] <-> ValidIn T w f v).
+Proof. exact f_check_exact_u. Qed.
+
+(* [U] every operation of the alphabet (26 constructors: create, named create, copy, move, remove, rename, character data,
+   attributes, references, comments, get_or_create, new model, files, file membership) keeps Core /\ TypedU, whatever it returns,
+   given the side condition for move / copy *)
+Theorem C17_typed_step : forall (T : tables) (tab_el tab_en : nametab) (check_fn : N -> list N -> res bool) (LATEST : N)
+    (root_attrs : list (N * cdata)) (o : Script.op) (w : world) (r : out Script.value) (w' : world),
+  Inv.Core w -> TypedU T w -> op_ok T w o ->
+  Inv.run T tab_el tab_en check_fn LATEST root_attrs o w = Val (r, w') -> Inv.Core w' /\ TypedU T w'.
+Proof. exact typed_step. Qed.
+
+(* [U] all histories from the empty world *)
+Theorem C17_typed_histories : forall (T : tables) (tab_el tab_en : nametab) (check_fn : N -> list N -> res bool) (LATEST : N)
+    (root_attrs : list (N * cdata)) (l : list Script.op) (w' : world),
+  ok_ops T tab_el tab_en check_fn LATEST root_attrs l Inv.empty_world ->
+  Inv.run_ops T tab_el tab_en check_fn LATEST root_attrs l Inv.empty_world = Val w' -> Inv.Core w' /\ TypedU T w'.
+Proof. exact typed_histories. Qed.
+
+(* [F] the regenerated real tables have all masks within u32 *)
+Theorem C17_mask_ok_real : MaskOK RT.
+Proof. exact MaskOK_real. Qed.
+
+(* [U over histories, F over the tables] on the real tables the compatibility check is exact after EVERY history of the
+   editing API from the empty world whose moves and copies satisfy the side condition - no Typed hypothesis left *)
+Theorem C17_exact_histories_real : forall (tab_el tab_en : nametab) (check_fn : N -> list N -> res bool) (LATEST : N)
+    (root_attrs : list (N * cdata)) (l : list Script.op) (w : world),
+  Inv.run_ops RT tab_el tab_en check_fn LATEST root_attrs l Inv.empty_world = Val w ->
+  ok_ops RT tab_el tab_en check_fn LATEST root_attrs l Inv.empty_world ->
+  forall (f v : N) (r : cres), f_check RT w f v = Val r -> (fst r = [] <-> ValidIn RT w f v).
+Proof. exact exact_histories_real. Qed.
